@@ -201,7 +201,28 @@ func (d *DHCPv4) Len() uint16 {
 // SerializationBuffer, implementing gopacket.SerializableLayer.
 // See the docs for gopacket.SerializableLayer for more info.
 func (d *DHCPv4) SerializeTo(b gopacket.SerializeBuffer, opts gopacket.SerializeOptions) error {
-	plen := int(d.Len())
+	// An option takes the space its Length says; Data which is shorter is
+	// followed by zeroes, Data which is longer cannot be written.
+	plen := 240 + 1 // fixed header and the end option
+	for i := range d.Options {
+		o := &d.Options[i]
+		if o.Type == DHCPOptPad {
+			plen++
+			continue
+		}
+		if opts.FixLengths {
+			if len(o.Data) > 255 {
+				return fmt.Errorf("DHCPv4 option %d (%v) has %d bytes of data, at most 255 fit", i, o.Type, len(o.Data))
+			}
+			o.Length = uint8(len(o.Data))
+		} else if len(o.Data) > int(o.Length) {
+			return fmt.Errorf("DHCPv4 option %d (%v) has length %d but %d bytes of data", i, o.Type, o.Length, len(o.Data))
+		}
+		plen += 2 + int(o.Length)
+	}
+	if plen > 65535 {
+		return fmt.Errorf("DHCPv4 options take %d bytes, too large for a DHCPv4 packet", plen-241)
+	}
 
 	data, err := b.PrependBytes(plen)
 	if err != nil {
@@ -242,7 +263,7 @@ func (d *DHCPv4) SerializeTo(b gopacket.SerializeBuffer, opts gopacket.Serialize
 			if o.Type == DHCPOptPad {
 				offset++
 			} else {
-				offset += 2 + len(o.Data)
+				offset += 2 + int(o.Length)
 			}
 		}
 	}
